@@ -102,6 +102,16 @@ class Run:
             self.viol("c04.alternate", "remove_without_add", "browser %d: Removed(%s) %s" % (bid, name, "twice" if prev == "R" else "before any Added"),
                       cb=("RR" if prev == "R" else "R-first"))
         self.state[key] = kind
+        if kind == "A":
+            # the lookup an application makes from add_service: a ServiceInfo for the reported (type, name) pair, filled
+            # from the cache.  It must be constructible for whatever spelling the browser reports.
+            self.res.mon("c04.lookup_in_add")
+            try:
+                from zeroconf.asyncio import AsyncServiceInfo
+                AsyncServiceInfo(type_, name).load_from_cache(self.zc)
+            except Exception as e:  # noqa
+                self.viol("c04.visible_in_add", "lookup_in_add_raised", "inside add_service(%r, %r): ServiceInfo(type, name).load_from_cache raised %r" % (type_, name, e),
+                          exc_type=type(e).__name__)
         if kind == "A" and self.current_dgram is not None:
             self.res.mon("c04.visible_in_add")
             gone = {i for i, ttl in self.current_dgram if ttl == 0}
